@@ -399,4 +399,262 @@ theorem cLogs_surePeers (init : List Nat) (phases : List (List COp)) :
   cLogs_inv (normPeers init) SurePeers cAdvance (surePeers_step (normPeers init)) phases (cInit init) [[.boot init]]
     (by intro l hl; rw [List.mem_singleton.1 hl]; exact surePeers_init init)
 
+/-! ### pins: frame, effect, bookkeeping (`SurePins`) -/
+
+/-- an attempt that never changes cid `c`'s pin entry -/
+def KeepsPin (att : Attempt) (c : Nat) : Prop :=
+  ∀ log : List Entry, (pinsAt (direct att log).2).get c = (pinsAt log).get c
+
+theorem keepsPin_add (p c : Nat) : KeepsPin (rwAddPeer p) c := by
+  intro log
+  unfold direct rwAddPeer
+  simp only
+  split_ifs
+  · rw [List.append_nil]
+  · rw [pinsAt_append]; rfl
+  · rw [List.append_nil]
+
+theorem keepsPin_rm (p c : Nat) : KeepsPin (rwRemovePeer p) c := by
+  intro log
+  unfold direct rwRemovePeer
+  simp only
+  split_ifs
+  · rw [List.append_nil]
+  · rw [List.append_nil]
+  · rw [pinsAt_append]; rfl
+  · rw [List.append_nil]
+
+theorem commit_pin_get (p : Pin) (log : List Entry) (c : Nat) :
+    (pinsAt (direct (rwCommit (.pin p)) log).2).get c = if p.cid = c then some p.stored else (pinsAt log).get c := by
+  unfold direct rwCommit
+  simp only [if_true]
+  rw [pinsAt_append]; simp only [applyPin]
+  rw [CV.get_put (wf_pinsAt log)]; rfl
+
+theorem commit_unpin_get (k : Nat) (log : List Entry) (c : Nat) :
+    (pinsAt (direct (rwCommit (.unpin k)) log).2).get c = if c = k then none else (pinsAt log).get c := by
+  unfold direct rwCommit
+  simp only [if_true]
+  rw [pinsAt_append]; simp only [applyPin]
+  rw [CV.get_erase]
+
+theorem commit_res (e : Entry) (log : List Entry) : (direct (rwCommit e) log).1 = .ok := by
+  unfold direct rwCommit; simp
+
+/-- FRAME for pins: a call that does not name cid `c` leaves `c`'s entry as it was, whatever its outcome -/
+theorem cApply_frame_pin {running : List Nat} {u : Bool} {log mid : List Entry} {op : COp} {c : Nat}
+    (hs : op.cid ≠ some c) (h : mid ∈ cApply running u log op) :
+    (pinsAt mid).get c = (pinsAt log).get c := by
+  have key : ∀ {a : Nat} {att : Attempt} {res : Res}, KeepsPin att c →
+      ((mid = (direct att log).2 ∧ (direct att log).1 = res) ∨ (res = .err ∧ mid = log) ∨
+        (res = .err ∧ mid = (direct att log).2 ∧ (direct att log).1 = .ok)) →
+      (pinsAt mid).get c = (pinsAt log).get c := by
+    intro a att res hk hc
+    rcases hc with ⟨rfl, _⟩ | ⟨_, rfl⟩ | ⟨_, rfl, _⟩
+    · exact hk log
+    · rfl
+    · exact hk log
+  cases op with
+  | add a p res => exact key (a := a) (keepsPin_add p c) (cApply_cases h)
+  | rm a p res => exact key (a := a) (keepsPin_rm p c) (cApply_cases h)
+  | pin a p res =>
+    have hp : p.cid ≠ c := fun e => hs (by rw [← e]; rfl)
+    refine key (a := a) (fun l => ?_) (cApply_cases h)
+    rw [commit_pin_get, if_neg hp]
+  | unpin a k res =>
+    have hp : c ≠ k := fun e => hs (by rw [e]; rfl)
+    refine key (a := a) (fun l => ?_) (cApply_cases h)
+    rw [commit_unpin_get, if_neg hp]
+
+/-- EFFECT: an acknowledged pin: the stored form of the pin is the cid's entry right after it -/
+theorem cApply_pin_ok {running : List Nat} {u : Bool} {log mid : List Entry} {a : Nat} {p : Pin}
+    (h : mid ∈ cApply running u log (.pin a p .ok)) : (pinsAt mid).get p.cid = some p.stored := by
+  have hc := cApply_cases (a := a) (att := rwCommit (.pin p)) (res := .ok) h
+  rcases hc with ⟨rfl, _⟩ | ⟨hc, _⟩ | ⟨hc, _⟩
+  · rw [commit_pin_get, if_pos rfl]
+  · cases hc
+  · cases hc
+
+/-- EFFECT: an acknowledged unpin: the cid has no entry right after it -/
+theorem cApply_unpin_ok {running : List Nat} {u : Bool} {log mid : List Entry} {a c : Nat}
+    (h : mid ∈ cApply running u log (.unpin a c .ok)) : (pinsAt mid).get c = none := by
+  have hc := cApply_cases (a := a) (att := rwCommit (.unpin c)) (res := .ok) h
+  rcases hc with ⟨rfl, _⟩ | ⟨hc, _⟩ | ⟨hc, _⟩
+  · rw [commit_unpin_get, if_pos rfl]
+  · cases hc
+  · cases hc
+
+theorem reach_untouched_pin {running : List Nat} {u : Bool} {c : Nat} {log order log'}
+    (hr : CReach running u log order log') (hn : ∀ o ∈ order, o.cid ≠ some c) :
+    (pinsAt log').get c = (pinsAt log).get c := by
+  induction hr with
+  | nil _ => rfl
+  | cons hm _ ih =>
+    rw [ih (fun o ho => hn o (List.mem_cons_of_mem _ ho)), cApply_frame_pin (hn _ (List.mem_cons_self ..)) hm]
+
+/-- every call of the order that names cid `c` leaves `v` as `c`'s entry, and there is one (or `v` was the entry):
+    `v` is the entry after the order -/
+theorem reach_set_pin {running : List Nat} {u : Bool} {c : Nat} {v : Option Pin} {log order log'}
+    (hr : CReach running u log order log')
+    (hall : ∀ o ∈ order, o.cid = some c → ∀ l m, m ∈ cApply running u l o → (pinsAt m).get c = v)
+    (hex : (pinsAt log).get c = v ∨ ∃ o ∈ order, o.cid = some c) :
+    (pinsAt log').get c = v := by
+  induction hr with
+  | nil _ =>
+    rcases hex with h | ⟨o, ho, _⟩
+    · exact h
+    · cases ho
+  | @cons log mid log' op rest hm _ ih =>
+    apply ih (fun o ho => hall o (List.mem_cons_of_mem _ ho))
+    by_cases hs : op.cid = some c
+    · exact Or.inl (hall op (List.mem_cons_self ..) hs _ _ hm)
+    · rcases hex with h | ⟨o, ho, hso⟩
+      · left; rw [cApply_frame_pin hs hm]; exact h
+      · rcases List.mem_cons.1 ho with rfl | ho
+        · exact absurd hso hs
+        · exact Or.inr ⟨o, ho, hso⟩
+
+theorem cAdvStep_wf (ph : List COp) (t : CSt) (op : COp) (hw : t.pinset.wf = true) :
+    (cAdvStep ph t op).pinset.wf = true := by
+  cases op with
+  | add a p res => unfold cAdvStep; simp only; split_ifs <;> exact hw
+  | rm a p res => unfold cAdvStep; simp only; split_ifs <;> exact hw
+  | pin a p res =>
+    unfold cAdvStep; simp only; split_ifs
+    · exact CV.wf_put hw _
+    · exact hw
+  | unpin a k res =>
+    unfold cAdvStep; simp only; split_ifs
+    · exact CV.wf_erase hw _
+    · exact hw
+
+theorem cAdvFold_wf (ph : List COp) : ∀ (ops : List COp) (t : CSt), t.pinset.wf = true →
+    (ops.foldl (cAdvStep ph) t).pinset.wf = true
+  | [], _, h => h
+  | op :: rest, t, h => by rw [List.foldl_cons]; exact cAdvFold_wf ph rest _ (cAdvStep_wf ph t op h)
+
+/-- a call that does not name cid `c` leaves `c`'s bookkeeping alone -/
+theorem cAdvStep_other_pin (ph : List COp) (t : CSt) (op : COp) (c : Nat) (hw : t.pinset.wf = true)
+    (hs : op.cid ≠ some c) :
+    (cAdvStep ph t op).pinset.get c = t.pinset.get c ∧
+    (cAdvStep ph t op).unsureC.contains c = t.unsureC.contains c := by
+  cases op with
+  | add a p res => unfold cAdvStep; simp only; split_ifs <;> exact ⟨rfl, rfl⟩
+  | rm a p res => unfold cAdvStep; simp only; split_ifs <;> exact ⟨rfl, rfl⟩
+  | pin a p res =>
+    have hp : p.cid ≠ c := fun e => hs (by rw [← e]; rfl)
+    have hp' : c ≠ p.cid := Ne.symm hp
+    unfold cAdvStep; simp only
+    split_ifs
+    · refine ⟨?_, by simp [mem_insertPeer, mem_erasePeer, hp']⟩
+      rw [CV.get_put hw]
+      exact if_neg hp
+    · exact ⟨rfl, by simp [mem_insertPeer, mem_erasePeer, hp']⟩
+  | unpin a k res =>
+    have hp : c ≠ k := fun e => hs (by rw [e]; rfl)
+    unfold cAdvStep; simp only
+    split_ifs
+    · exact ⟨by rw [CV.get_erase, if_neg hp], by simp [mem_insertPeer, mem_erasePeer, hp]⟩
+    · exact ⟨rfl, by simp [mem_insertPeer, mem_erasePeer, hp]⟩
+
+/-- what the bookkeeping is sure of about cid `c` after folding over `ops` -/
+theorem cAdv_sure_pin (ph : List COp) (c : Nat) : ∀ (ops : List COp) (t : CSt), t.pinset.wf = true →
+    (ops.foldl (cAdvStep ph) t).unsureC.contains c = false →
+    ((∀ o ∈ ops, o.cid ≠ some c) ∧ t.unsureC.contains c = false ∧
+        (ops.foldl (cAdvStep ph) t).pinset.get c = t.pinset.get c) ∨
+    ((ph.filter (fun o => o.cid == some c)).length = 1 ∧ (∃ a p, p.cid = c ∧ COp.pin a p .ok ∈ ops ∧
+        (ops.foldl (cAdvStep ph) t).pinset.get c = some p.stored)) ∨
+    ((ph.filter (fun o => o.cid == some c)).length = 1 ∧ (∃ a, COp.unpin a c .ok ∈ ops) ∧
+        (ops.foldl (cAdvStep ph) t).pinset.get c = none)
+  | [], t, _, h => Or.inl ⟨fun _ ho => (by cases ho), h, rfl⟩
+  | op :: rest, t, hw, h => by
+    rw [List.foldl_cons] at h ⊢
+    have hw' := cAdvStep_wf ph t op hw
+    rcases cAdv_sure_pin ph c rest (cAdvStep ph t op) hw' h with
+      ⟨hn, hu, hm⟩ | ⟨hc, a, p, hpc, ha, hm⟩ | ⟨hc, ⟨a, ha⟩, hm⟩
+    · by_cases hs : op.cid = some c
+      · cases op with
+        | add a p res => simp [COp.cid] at hs
+        | rm a p res => simp [COp.cid] at hs
+        | pin a p res =>
+          have hp : p.cid = c := by simpa [COp.cid] using hs
+          subst hp
+          by_cases hg : (okB res && (ph.filter (fun o => o.cid == some p.cid)).length == 1) = true
+          · have hok : res = .ok := by
+              cases res with
+              | ok => rfl
+              | err => simp [okB] at hg
+            subst hok
+            right; left
+            refine ⟨by simpa [okB] using hg, a, p, rfl, List.mem_cons_self .., ?_⟩
+            rw [hm]; unfold cAdvStep; simp only [hg, if_true]
+            rw [CV.get_put hw]; exact if_pos rfl
+          · exfalso
+            unfold cAdvStep at hu; simp only [hg, if_false] at hu
+            simp [mem_insertPeer] at hu
+        | unpin a k res =>
+          have hp : k = c := by simpa [COp.cid] using hs
+          subst hp
+          by_cases hg : (okB res && (ph.filter (fun o => o.cid == some k)).length == 1) = true
+          · have hok : res = .ok := by
+              cases res with
+              | ok => rfl
+              | err => simp [okB] at hg
+            subst hok
+            right; right
+            refine ⟨by simpa [okB] using hg, ⟨a, List.mem_cons_self ..⟩, ?_⟩
+            rw [hm]; unfold cAdvStep; simp only [hg, if_true]
+            rw [CV.get_erase, if_pos rfl]
+          · exfalso
+            unfold cAdvStep at hu; simp only [hg, if_false] at hu
+            simp [mem_insertPeer] at hu
+      · obtain ⟨e1, e2⟩ := cAdvStep_other_pin ph t op c hw hs
+        left
+        refine ⟨?_, by rw [← e2]; exact hu, by rw [hm, e1]⟩
+        intro o ho
+        rcases List.mem_cons.1 ho with rfl | ho
+        · exact hs
+        · exact hn o ho
+    · right; left; exact ⟨hc, a, p, hpc, List.mem_cons_of_mem _ ha, hm⟩
+    · right; right; exact ⟨hc, ⟨a, List.mem_cons_of_mem _ ha⟩, hm⟩
+
+/-- what the bookkeeping is sure of about the pinset is true of the log (and the bookkept pinset is well formed) -/
+def SurePins (s : CSt) (log : List Entry) : Prop :=
+  s.pinset.wf = true ∧ ∀ c, s.unsureC.contains c = false → (pinsAt log).get c = s.pinset.get c
+
+/-- THE PER-PHASE STEP for pins: any order of the phase, any admitted outcome of every call -/
+theorem surePins_step (running : List Nat) (s : CSt) (log : List Entry) (ph order : List COp) (log' : List Entry)
+    (hI : SurePins s log) (hp : order.Perm ph) (hr : CReach running (removesRunning running ph) log order log') :
+    SurePins (cAdvance s ph) log' := by
+  refine ⟨by rw [cAdvance_eq]; exact cAdvFold_wf ph ph s hI.1, ?_⟩
+  intro c hj
+  rw [cAdvance_eq] at hj ⊢
+  rcases cAdv_sure_pin ph c ph s hI.1 hj with ⟨hn, hu, hm⟩ | ⟨hc, a, p, hpc, ha, hm⟩ | ⟨hc, ⟨a, ha⟩, hm⟩
+  · rw [hm, reach_untouched_pin hr (fun o ho => hn o (hp.mem_iff.1 ho))]
+    exact hI.2 c hu
+  · rw [hm]
+    subst hpc
+    refine reach_set_pin hr ?_ (Or.inr ⟨_, hp.mem_iff.2 ha, rfl⟩)
+    intro o ho hs l m hm'
+    have : o = COp.pin a p .ok :=
+      filter_one_unique hc (hp.mem_iff.1 ho) (by simp [hs]) ha (by simp [COp.cid])
+    subst this
+    exact cApply_pin_ok hm'
+  · rw [hm]
+    refine reach_set_pin hr ?_ (Or.inr ⟨_, hp.mem_iff.2 ha, rfl⟩)
+    intro o ho hs l m hm'
+    have : o = COp.unpin a c .ok :=
+      filter_one_unique hc (hp.mem_iff.1 ho) (by simp [hs]) ha (by simp [COp.cid])
+    subst this
+    exact cApply_unpin_ok hm'
+
+theorem surePins_init (init : List Nat) : SurePins (cInit init) [.boot init] :=
+  ⟨rfl, fun _ _ => rfl⟩
+
+/-- WHOLE HISTORY: what `cAdvance` is sure of about a cid's pin entry is true of every log the concurrent model reaches -/
+theorem conc_sure_pins_in_every_log (init : List Nat) (phases : List (List COp)) :
+    ∀ log ∈ cLogs (normPeers init) [[.boot init]] phases, SurePins (cFinal (cInit init) phases) log :=
+  cLogs_inv (normPeers init) SurePins cAdvance (surePins_step (normPeers init)) phases (cInit init) [[.boot init]]
+    (by intro l hl; rw [List.mem_singleton.1 hl]; exact surePins_init init)
+
 end CV.C17
